@@ -15,6 +15,7 @@ from . import algos_weigh as wg
 from . import core_tree as tr
 from . import algos_risk as rk
 from . import algos_close as cl
+from . import reports as rp
 
 UPD = [("date", "date"), ("data", "optdata"), ("inow", "optint")]
 
@@ -79,6 +80,8 @@ def build():
         reg(c, v)
     for c, v in cl.contracts():
         reg(c, v)
+    for c, v in rp.contracts():
+        reg(c, v)
     for c, v in sel.contracts():
         reg(c, v)
         if v is None:
@@ -108,6 +111,7 @@ def build():
     loops.update(tr.LOOPS)
     loops.update(rk.LOOPS)
     loops.update(cl.LOOPS)
+    loops.update(rp.LOOPS)
     # state merging at if-joins keeps StrategyBase.update at tens of paths; for the non-linear sizing
     # search of allocate separate paths are much easier for the solver
     options = {"bt.core.SecurityBase.allocate": dict(merge=False)}
